@@ -141,6 +141,11 @@ Definition lookup_of (p : process) (m n : pystr) : lookup_res :=
 Definition obj_eq_str (o : obj) (s : pystr) : bool :=
   match o with OStr t => pystr_eqb t s | _ => false end.
 
+(* `o is NONE_TYPE` / `o is type(None)`: in the machine's universe the class NoneType is the one term ONoneType;
+   `o is None` *)
+Definition obj_is_nonetype (o : obj) : bool := match o with ONoneType => true | _ => false end.
+Definition obj_is_none (o : obj) : bool := match o with ONone => true | _ => false end.
+
 (** * pickle_load *)
 Definition py_encode_utf8 (v : pyv) : pyv :=
   match v with VStr s => VBytes (utf8_enc s) | _ => VNone end.
